@@ -3,14 +3,6 @@
 From TucModel Require Import Base.Bytes Base.ListX Model.Scan Model.Regex Model.Opt Model.CutStr
      Proofs.ScanSplit Proofs.C12.
 
-Lemma slice_split {A} (l : list A) a b c : a <= b -> b <= c -> slice l a c = slice l a b ++ slice l b c.
-Proof.
-  intros Hab Hbc. unfold slice.
-  replace (c - a) with ((b - a) + (c - b)) by lia.
-  rewrite firstn_add_app. f_equal.
-  rewrite skipn_skipn'. replace (b - a + a) with b by lia. reflexivity.
-Qed.
-
 (** gaps and matched texts, woven together *)
 Fixpoint weave (line : bytes) (start : nat) (ms : list mtch) (len : nat) : bytes :=
   match ms with
